@@ -291,3 +291,19 @@ Fixpoint gasrule_txs (e : env) (l : list (tx * oracle * obs)) (i : nat) : option
   end.
 
 Definition gasrule_case (c : case) : option nat := gasrule_txs (c_env c) (c_txs c) 0.
+
+(* "is not included and costs nothing", read for the block as well: a transaction refused by one of the admission checks the
+   property names (block gas left, price, balance, gas above the block limit, nonce: reasons 1 and 3-10) must leave the block
+   gas meter alone, otherwise it eats capacity that later transactions of other senders paid for. Reason 2 (a malformed
+   message refused by validateBasic before the ante handler) is outside that list. *)
+Definition blockgas_ok (e : env) (t : tx) (pre post : view) : bool :=
+  let why := admit_reason e (v_sbal pre) (v_nonce pre) (v_bgas pre) t in
+  if (why =? 1) || (3 <=? why) then v_bgas post =? v_bgas pre else true.
+
+Fixpoint blockgas_txs (e : env) (l : list (tx * oracle * obs)) (i : nat) : option nat :=
+  match l with
+  | [] => None
+  | (t, o, ob) :: r => if blockgas_ok e t (ob_pre ob) (ob_post ob) then blockgas_txs e r (S i) else Some i
+  end.
+
+Definition blockgas_case (c : case) : option nat := blockgas_txs (c_env c) (c_txs c) 0.
